@@ -240,6 +240,7 @@ def check(run):
                 nlb += 1
                 if nlb <= 2:
                     run.tie_broken("translator", "generated _list_items vs the real function", "file %r: real %s generated %s" % (text[:400], str(real)[:300], str(a)[:300]))
+        genlib.validate_raw_parser(run, [(render(secs), lines_of(secs), secs) for secs, _, _ in cases], n=run.n(40, 400))
     counts = collections.Counter()
     for (secs, species, ops), mo, ge in zip(cases, models, gens):
         text = render(secs)
